@@ -311,6 +311,13 @@ def TaskSt.openFor (st : TaskSt) (c : Conn) : Bool :=
   | .running o _ | .done o _ => o == c
   | _ => false
 
+/-- what `status` tells client `c` about a task in this state -/
+def TaskSt.statusFor (st : TaskSt) (c : Conn) : CStat :=
+  match st with
+  | .running o _ => if o = c then .running else .unknown
+  | .done o _ => if o = c then .done else .unknown
+  | _ => .unknown
+
 structure Abs where
   conn : Conn → Bool
   task : Tid → TaskSt
@@ -364,11 +371,7 @@ def spec (a : Abs) : Req → Abs × List Reply
       if o = c then (a.setTask t (.delivered o), [.resultTo c v])
       else (a.drop c, [.errorTo c 0, .close c])
     | _ => (a.drop c, [.errorTo c 0, .close c])
-  | .status c t =>
-    match a.task t with
-    | .running o _ => (a, [.status c (if o = c then .running else .unknown)])
-    | .done o _ => (a, [.status c (if o = c then .done else .unknown)])
-    | _ => (a, [.status c .unknown])
+  | .status c t => (a, [.status c ((a.task t).statusFor c)])
   | .cancel c t =>
     if (a.task t).openFor c then (a.setTask t (.cancelled c), [.cancelAck c])
     else (a, [.cancelAck c])
